@@ -1,3 +1,8 @@
+(* Outstation/SessionLemmas_c04.v — helper lemmas about Outstation/Session.v for property C04:
+   frames (which fields a function leaves alone), which callbacks each handler can emit, the idle loop
+   processes the pending fragment at most once (idle_run_safe) and, with the fuel given by the model,
+   exactly once leaving nothing pending (idle_run_J), and the resulting description of one step
+   (ostep_spec). *)
 From Dnp3V Require Import Outstation.Session.
 Open Scope N_scope.
 
